@@ -82,6 +82,17 @@ SUMMARY.update({
  "C19-e": ("C19", "core.rs handle_vote: vote.verify skipped for votes naming the node itself (same edit as C04-a, found independently)", "a forged vote in the collector's own name"),
 })
 
+SUMMARY.update({
+ "C03-d": ("C03", "core.rs local_timeout_round: increase_last_voted_round(high_qc.round + 1) instead of (self.round)", "a round entered through a TC, a second timeout in it, then the slow leader's TC-justified block arrives and is voted for"),
+ "C06-d": ("C06", "timer.rs Timer::reset re-arms at max(old deadline, now) + duration: every fast round pushes the deadline one more timeout into the future", "a long fault-free stretch of fast rounds followed by a crash"),
+ "C11-c": ("C11", "batch_maker.rs: the timer reset moved out of the size-seal branch, so every transaction re-arms the delay timer", "a steady trickle of small transactions with gaps shorter than max_batch_delay"),
+ "C12-d": ("C12", "quorum_waiter.rs keeps the ack stream across batches: late acks of the previous batch are counted for the next one", "two batches in flight with slow acknowledgements"),
+ "C15-c": ("C15", "mempool helper.rs answers a BatchRequest with store.notify_read instead of read: an unknown digest parks the helper forever", "a BatchRequest naming a digest the node never stores"),
+ "C17-c": ("C17", "consensus config.rs quorum_threshold = 2f+1 with f = (N-1)/3", "total stake not of the form 3f+1"),
+ "C18-c": ("C18", "crypto Signature::flatten masks the top three bits of the last byte", "a signature differing only in bits 509-511"),
+ "C20-c": ("C20", "messages.rs Block digest hashes the payload digests in sorted order", "two blocks differing only in payload order"),
+})
+
 def confirmed(d):
     out = {}
     for tag in ("with", "without"):
